@@ -97,13 +97,14 @@ end Render
 
 namespace Render
 
-theorem strStep_line {st : Style} (h : styleOk st = true) (anc : List Bool) (hr : Bool) {n : Str}
-    (hn : nameOk st n = true) (pl? : Option Nat) (S : List Frame)
+theorem strStep_line {st : Style} (h : styleOk st = true) (ps : List Str) (anc : List Bool) (hr : Bool) {n : Str}
+    (hn : nameOk st n = true)
+    (hnm : nodeName ps ((anc.map st.glyph).flatten ++ st.fill hr ++ n) = n) (pl? : Option Nat) (S : List Frame)
     (hpl : pl? = some st.stem.length ∨ (pl? = none ∧ anc = []))
     (hS : anc.length + 1 ≤ S.length) (P : Frame) (rest : List Frame)
     (hP : popTo (anc.length + 1) S = P :: rest)
     (hdup : (P.kids.map Tree.name).contains n = false) :
-    strStep [st.branch, st.stemFinal] ⟨pl?, S⟩ ((anc.map st.glyph).flatten ++ st.fill hr ++ n) =
+    strStep ps ⟨pl?, S⟩ ((anc.map st.glyph).flatten ++ st.fill hr ++ n) =
       some ⟨some st.stem.length, ⟨n, []⟩ :: P :: rest⟩ := by
   obtain ⟨lb, lf, lpos, hne⟩ := styleOk_lengths h
   have hne' : n.isEmpty = false := by
@@ -116,7 +117,7 @@ theorem strStep_line {st : Style} (h : styleOk st = true) (anc : List Bool) (hr 
     Nat.mul_div_cancel _ lpos
   have hmod : (anc.length + 1) * st.stem.length % st.stem.length = 0 := Nat.mul_mod_left _ _
   unfold strStep
-  simp only [nodeName_line h anc hr hn, indexOf_line h anc hr hn]
+  simp only [hnm, indexOf_line h anc hr hn]
   have hdup' : ∀ x ∈ P.kids, ¬ x.name = n := by simpa using hdup
   rcases hpl with rfl | ⟨rfl, rfl⟩
   · simp [hmod, hdiv, hpop, hne']
@@ -152,23 +153,24 @@ theorem eraseL_append_singleton : ∀ (c : Tree) (cs : List Tree), erase.eraseL 
 def Lok (st : Style) : PState → List Frame → Prop := fun s S => s.prefixLen = some st.stem.length ∧ s.stack = S
 
 mutual
-theorem rtT {st : Style} (h : styleOk st = true) (c : Tree) (anc : List Bool) (hr : Bool)
+theorem rtT {st : Style} (h : styleOk st = true) (ps : List Str) (c : Tree) (anc : List Bool) (hr : Bool)
+    (hread : ∀ (anc : List Bool) (hr : Bool), ∀ n ∈ namesT c, nodeName ps ((anc.map st.glyph).flatten ++ st.fill hr ++ n) = n)
     (pl? : Option Nat) (S : List Frame)
     (hpl : pl? = some st.stem.length ∨ (pl? = none ∧ anc = []))
     (hS : anc.length + 1 ≤ S.length) (P : Frame) (rest : List Frame)
     (hP : popTo (anc.length + 1) S = P :: rest)
     (hdup : (P.kids.map Tree.name).contains c.name = false)
     (hnames : ∀ n ∈ namesT c, nameOk st n = true) (hsd : sibDistinct c = true) :
-    ∃ S', strLoop [st.branch, st.stemFinal] ⟨pl?, S⟩ ((specT st anc hr c).map Line.text) =
+    ∃ S', strLoop ps ⟨pl?, S⟩ ((specT st anc hr c).map Line.text) =
         some ⟨some st.stem.length, S'⟩ ∧ anc.length + 2 ≤ S'.length ∧
       popTo (anc.length + 2) S' = ⟨c.name, erase.eraseL c.children⟩ :: P :: rest := by
   match c with
   | .node i n a cs =>
     have hn : nameOk st n = true := hnames n (by simp [namesT])
-    have hstep := strStep_line h anc hr hn pl? S hpl hS P rest hP hdup
+    have hstep := strStep_line h ps anc hr hn (hread anc hr n (by simp [namesT])) pl? S hpl hS P rest hP hdup
     have hlenPR : (P :: rest).length = anc.length + 1 := by rw [← hP]; exact popTo_length (by omega) hS
     simp only [sibDistinct, Bool.and_eq_true, decide_eq_true_eq] at hsd
-    have hL := rtL h cs (anc ++ [hr]) (some st.stem.length) (⟨n, []⟩ :: P :: rest) (Or.inl rfl)
+    have hL := rtL h ps cs (anc ++ [hr]) (fun a b m hm => hread a b m (by simp [namesT, hm])) (some st.stem.length) (⟨n, []⟩ :: P :: rest) (Or.inl rfl)
       (by simp at hlenPR ⊢; omega) ⟨n, []⟩ (P :: rest)
       (by rw [popTo_of_le]; simp at hlenPR ⊢; omega)
       (by simpa using hsd.1) (fun m hm => hnames m (by simp [namesT, hm])) hsd.2
@@ -181,14 +183,15 @@ theorem rtT {st : Style} (h : styleOk st = true) (c : Tree) (anc : List Bool) (h
       rcases e2 with rfl | ⟨_, rfl⟩ <;> rfl
     · simpa using e3
     · simpa using e4
-theorem rtL {st : Style} (h : styleOk st = true) (cs : List Tree) (anc : List Bool)
+theorem rtL {st : Style} (h : styleOk st = true) (ps : List Str) (cs : List Tree) (anc : List Bool)
+    (hread : ∀ (anc : List Bool) (hr : Bool), ∀ n ∈ namesL cs, nodeName ps ((anc.map st.glyph).flatten ++ st.fill hr ++ n) = n)
     (pl? : Option Nat) (S : List Frame)
     (hpl : pl? = some st.stem.length ∨ (pl? = none ∧ anc = []))
     (hS : anc.length + 1 ≤ S.length) (P : Frame) (rest : List Frame)
     (hP : popTo (anc.length + 1) S = P :: rest)
     (hdup : (P.kids.map Tree.name ++ cs.map Tree.name).Nodup)
     (hnames : ∀ n ∈ namesL cs, nameOk st n = true) (hsd : sibDistinct.sibDistinctL cs = true) :
-    ∃ pl' S', strLoop [st.branch, st.stemFinal] ⟨pl?, S⟩ ((specL st anc cs).map Line.text) = some ⟨pl', S'⟩ ∧
+    ∃ pl' S', strLoop ps ⟨pl?, S⟩ ((specL st anc cs).map Line.text) = some ⟨pl', S'⟩ ∧
       (pl' = some st.stem.length ∨ (cs = [] ∧ pl' = pl?)) ∧ anc.length + 1 ≤ S'.length ∧
       popTo (anc.length + 1) S' = ⟨P.name, P.kids ++ erase.eraseL cs⟩ :: rest := by
   match cs with
@@ -202,7 +205,7 @@ theorem rtL {st : Style} (h : styleOk st = true) (cs : List Tree) (anc : List Bo
       simp only [List.contains_eq_mem, decide_eq_false_iff_not]
       intro hc
       exact this _ hc _ (by simp) rfl
-    obtain ⟨S1, e1, e2, e3⟩ := rtT h c anc (!cs.isEmpty) pl? S hpl hS P rest hP hd1
+    obtain ⟨S1, e1, e2, e3⟩ := rtT h ps c anc (!cs.isEmpty) (fun a b m hm => hread a b m (by simp [namesL, hm])) pl? S hpl hS P rest hP hd1
       (fun m hm => hnames m (by simp [namesL, hm])) hsd.1
     have hP1 : popTo (anc.length + 1) S1 = (P.attach ⟨c.name, erase.eraseL c.children⟩) :: rest := by
       rw [← popTo_popTo (d := anc.length + 2) (by omega) (by omega), e3]
@@ -214,7 +217,7 @@ theorem rtL {st : Style} (h : styleOk st = true) (cs : List Tree) (anc : List Bo
       simp only [Frame.attach, List.map_append, List.map_cons, List.map_nil, hclose, erase_name, List.append_assoc,
         List.singleton_append]
       simpa using hdup
-    obtain ⟨pl2, S2, f1, _, f3, f4⟩ := rtL h cs anc (some st.stem.length) S1 (Or.inl rfl) (by omega)
+    obtain ⟨pl2, S2, f1, _, f3, f4⟩ := rtL h ps cs anc (fun a b m hm => hread a b m (by simp [namesL, hm])) (some st.stem.length) S1 (Or.inl rfl) (by omega)
       (P.attach ⟨c.name, erase.eraseL c.children⟩) rest hP1 hdup2
       (fun m hm => hnames m (by simp [namesL, hm])) hsd.2
     refine ⟨pl2, S2, ?_, ?_, f3, ?_⟩
@@ -229,15 +232,16 @@ theorem rtL {st : Style} (h : styleOk st = true) (cs : List Tree) (anc : List Bo
       simp [Frame.attach, hclose, erase.eraseL]
 end
 
-theorem strToTree_spec {st : Style} (h : styleOk st = true) (t : Tree)
+theorem strToTree_spec_gen {st : Style} (h : styleOk st = true) (ps : List Str) (t : Tree)
+    (hread : ∀ (anc : List Bool) (hr : Bool), ∀ n ∈ namesT t, nodeName ps ((anc.map st.glyph).flatten ++ st.fill hr ++ n) = n)
     (hnames : ∀ n ∈ namesT t, nameOk st n = true) (hsd : sibDistinct t = true) :
-    strToTreeLines [st.branch, st.stemFinal] ((specRoot st t).map Line.text) = some (erase t) := by
+    strToTreeLines ps ((specRoot st t).map Line.text) = some (erase t) := by
   match t with
   | .node i n a cs =>
     have hn : nameOk st n = true := hnames n (by simp [namesT])
     obtain ⟨c0, tl, hn0, _⟩ := nameOk_parts hn
     simp only [sibDistinct, Bool.and_eq_true, decide_eq_true_eq] at hsd
-    obtain ⟨pl', S', e1, _, e3, e4⟩ := rtL h cs [] none [⟨n, []⟩] (Or.inr ⟨rfl, rfl⟩) (by simp) ⟨n, []⟩ []
+    obtain ⟨pl', S', e1, _, e3, e4⟩ := rtL h ps cs [] (fun a b m hm => hread a b m (by simp [namesT, hm])) none [⟨n, []⟩] (Or.inr ⟨rfl, rfl⟩) (by simp) ⟨n, []⟩ []
       (by simp [popTo, popN]) (by simpa using hsd.1) (fun m hm => hnames m (by simp [namesT, hm])) hsd.2
     simp only [specRoot, List.map_cons, Line.text, List.append_nil, List.nil_append, strToTreeLines]
     have : n.isEmpty = false := by rw [hn0]; rfl
@@ -249,4 +253,10 @@ theorem strToTree_spec {st : Style} (h : styleOk st = true) (t : Tree)
     simp only [List.length_nil, Nat.zero_add] at e4
     rw [e4]
     simp [Frame.close, erase]
+
+/-- with the two connectors as prefix list -/
+theorem strToTree_spec {st : Style} (h : styleOk st = true) (t : Tree)
+    (hnames : ∀ n ∈ namesT t, nameOk st n = true) (hsd : sibDistinct t = true) :
+    strToTreeLines [st.branch, st.stemFinal] ((specRoot st t).map Line.text) = some (erase t) :=
+  strToTree_spec_gen h _ t (fun anc hr n hn => nodeName_line h anc hr (hnames n hn)) hnames hsd
 end Render
